@@ -83,6 +83,74 @@ package server
 //@   ensures [C01,C08 delete.handler-deny] !allows(id.Permissions, "delete", req.Name) ==> (errIs(err, db.ErrAccessDenied) && noEffect(s.db))
 //@   ensures [C01,C02,C08 delete.handler] dbInv(s.db) && ((err == nil && !hasPrefix(req.Name, "_internal/")) ==> !has(s.db.kv.secrets, req.Name))
 
+// ---- construction: the server is wired to the given (or opened) database and identity oracle, each API
+// path is registered to the handler of its name on this server, and the backup task is started iff a
+// bucket is configured, in a state satisfying its precondition.
+//@ func makeS3Client(ctx, region, bucket, assumeRole) (c, err)
+//@   ensures [C17 s3client.nonnil] err == nil ==> c != nil
+//@ func New(ctx, cfg) (ret, err)
+//@   requires ctx != nil && cfg.Mux != nil && cfg.WhoIs != nil
+//@   requires cfg.DB != nil ==> dbInv(cfg.DB)
+//@   requires cfg.DB == nil ==> ((diskHas(disk, cfg.DBPath) ==> wfClear(clearOfFile(diskData(disk, cfg.DBPath), cfg.Key))) && (cfg.AuditLog != nil ==> cfg.AuditLog.enc != nil))
+//@   ensures [C08 new.server-ready] err == nil ==> (ret != nil && fresh(ret) && ret.db != nil && dbInv(ret.db) && ret.whois == cfg.WhoIs && ret.whois != nil && (cfg.DB != nil ==> ret.db == cfg.DB))
+//@   ensures [C17 new.backup-iff-bucket] err == nil ==> (spawned("(*server.Server).periodicBackup") == (cfg.BackupBucket != ""))
+//@   ensures [C17 new.no-backup-on-failure] err != nil ==> (!spawned("(*server.Server).periodicBackup") && ret == nil)
+//@   ensures [C03,C05 new.db-file-readonly] old(diskHas(disk, cfg.DBPath)) ==> disk == old(disk)
+//@   at call HandleFunc: assert [C08 new.routes] boundRecv(arg_handler) == ret && ((arg_pattern == "/" && fnName(arg_handler) == "(*server.Server).htmlList") || (arg_pattern == "/api/list" && fnName(arg_handler) == "(*server.Server).list") || (arg_pattern == "/api/get" && fnName(arg_handler) == "(*server.Server).get") || (arg_pattern == "/api/info" && fnName(arg_handler) == "(*server.Server).info") || (arg_pattern == "/api/put" && fnName(arg_handler) == "(*server.Server).put") || (arg_pattern == "/api/activate" && fnName(arg_handler) == "(*server.Server).activate") || (arg_pattern == "/api/delete" && fnName(arg_handler) == "(*server.Server).deleteSecret") || (arg_pattern == "/api/delete-version" && fnName(arg_handler) == "(*server.Server).deleteVersion"))
+
+// ---- endpoints: the registered handlers. Each forwards to serveJSON with the closure of its name; the
+// closure's precondition (the database invariant) holds when it is handed over, and serveJSON does not
+// touch the database before calling it (gate.nostore-nonsuccess).
+//@ func (*Server).list(s, w, r)
+//@   requires s != nil && dbInv(s.db) && r != nil && r.URL != nil && s.whois != nil && w != nil && respStatus == 0 && respBody == ""
+//@   ensures [C08 endpoint.list.gate] !hdrOK(r) ==> (respStatus >= 400 && respStatus < 500 && fnCalls == old(fnCalls) && whoisCalls == old(whoisCalls) && auditLog == old(auditLog) && disk == old(disk))
+//@   ensures [C08 endpoint.list.unidentified] (whoisCalls != old(whoisCalls) && lastWhoErr != nil) ==> (fnCalls == old(fnCalls) && respStatus >= 400 && auditLog == old(auditLog) && disk == old(disk))
+//@   ensures [C08 endpoint.list.non200-constant-body] respStatus != 200 ==> constBody(respBody)
+//@   ensures [C08 endpoint.list.one-operation] fnCalls == old(fnCalls) || fnCalls == old(fnCalls) + 1
+//@   at call serveJSON: assert [C08 endpoint.list.closure-pre] arg_s == s && arg_r == r && arg_s != nil && dbInv(arg_s.db) && fnName(arg_fn) == "(*server.Server).list$1"
+//@ func (*Server).get(s, w, r)
+//@   requires s != nil && dbInv(s.db) && r != nil && r.URL != nil && s.whois != nil && w != nil && respStatus == 0 && respBody == ""
+//@   ensures [C08 endpoint.get.gate] !hdrOK(r) ==> (respStatus >= 400 && respStatus < 500 && fnCalls == old(fnCalls) && whoisCalls == old(whoisCalls) && auditLog == old(auditLog) && disk == old(disk))
+//@   ensures [C08 endpoint.get.unidentified] (whoisCalls != old(whoisCalls) && lastWhoErr != nil) ==> (fnCalls == old(fnCalls) && respStatus >= 400 && auditLog == old(auditLog) && disk == old(disk))
+//@   ensures [C08 endpoint.get.non200-constant-body] respStatus != 200 ==> constBody(respBody)
+//@   ensures [C08 endpoint.get.one-operation] fnCalls == old(fnCalls) || fnCalls == old(fnCalls) + 1
+//@   at call serveJSON: assert [C08 endpoint.get.closure-pre] arg_s == s && arg_r == r && arg_s != nil && dbInv(arg_s.db) && fnName(arg_fn) == "(*server.Server).get$1"
+//@ func (*Server).info(s, w, r)
+//@   requires s != nil && dbInv(s.db) && r != nil && r.URL != nil && s.whois != nil && w != nil && respStatus == 0 && respBody == ""
+//@   ensures [C08 endpoint.info.gate] !hdrOK(r) ==> (respStatus >= 400 && respStatus < 500 && fnCalls == old(fnCalls) && whoisCalls == old(whoisCalls) && auditLog == old(auditLog) && disk == old(disk))
+//@   ensures [C08 endpoint.info.unidentified] (whoisCalls != old(whoisCalls) && lastWhoErr != nil) ==> (fnCalls == old(fnCalls) && respStatus >= 400 && auditLog == old(auditLog) && disk == old(disk))
+//@   ensures [C08 endpoint.info.non200-constant-body] respStatus != 200 ==> constBody(respBody)
+//@   ensures [C08 endpoint.info.one-operation] fnCalls == old(fnCalls) || fnCalls == old(fnCalls) + 1
+//@   at call serveJSON: assert [C08 endpoint.info.closure-pre] arg_s == s && arg_r == r && arg_s != nil && dbInv(arg_s.db) && fnName(arg_fn) == "(*server.Server).info$1"
+//@ func (*Server).put(s, w, r)
+//@   requires s != nil && dbInv(s.db) && r != nil && r.URL != nil && s.whois != nil && w != nil && respStatus == 0 && respBody == ""
+//@   ensures [C08 endpoint.put.gate] !hdrOK(r) ==> (respStatus >= 400 && respStatus < 500 && fnCalls == old(fnCalls) && whoisCalls == old(whoisCalls) && auditLog == old(auditLog) && disk == old(disk))
+//@   ensures [C08 endpoint.put.unidentified] (whoisCalls != old(whoisCalls) && lastWhoErr != nil) ==> (fnCalls == old(fnCalls) && respStatus >= 400 && auditLog == old(auditLog) && disk == old(disk))
+//@   ensures [C08 endpoint.put.non200-constant-body] respStatus != 200 ==> constBody(respBody)
+//@   ensures [C08 endpoint.put.one-operation] fnCalls == old(fnCalls) || fnCalls == old(fnCalls) + 1
+//@   at call serveJSON: assert [C08 endpoint.put.closure-pre] arg_s == s && arg_r == r && arg_s != nil && dbInv(arg_s.db) && fnName(arg_fn) == "(*server.Server).put$1"
+//@ func (*Server).activate(s, w, r)
+//@   requires s != nil && dbInv(s.db) && r != nil && r.URL != nil && s.whois != nil && w != nil && respStatus == 0 && respBody == ""
+//@   ensures [C08 endpoint.activate.gate] !hdrOK(r) ==> (respStatus >= 400 && respStatus < 500 && fnCalls == old(fnCalls) && whoisCalls == old(whoisCalls) && auditLog == old(auditLog) && disk == old(disk))
+//@   ensures [C08 endpoint.activate.unidentified] (whoisCalls != old(whoisCalls) && lastWhoErr != nil) ==> (fnCalls == old(fnCalls) && respStatus >= 400 && auditLog == old(auditLog) && disk == old(disk))
+//@   ensures [C08 endpoint.activate.non200-constant-body] respStatus != 200 ==> constBody(respBody)
+//@   ensures [C08 endpoint.activate.one-operation] fnCalls == old(fnCalls) || fnCalls == old(fnCalls) + 1
+//@   at call serveJSON: assert [C08 endpoint.activate.closure-pre] arg_s == s && arg_r == r && arg_s != nil && dbInv(arg_s.db) && fnName(arg_fn) == "(*server.Server).activate$1"
+//@ func (*Server).deleteVersion(s, w, r)
+//@   requires s != nil && dbInv(s.db) && r != nil && r.URL != nil && s.whois != nil && w != nil && respStatus == 0 && respBody == ""
+//@   ensures [C08 endpoint.deleteVersion.gate] !hdrOK(r) ==> (respStatus >= 400 && respStatus < 500 && fnCalls == old(fnCalls) && whoisCalls == old(whoisCalls) && auditLog == old(auditLog) && disk == old(disk))
+//@   ensures [C08 endpoint.deleteVersion.unidentified] (whoisCalls != old(whoisCalls) && lastWhoErr != nil) ==> (fnCalls == old(fnCalls) && respStatus >= 400 && auditLog == old(auditLog) && disk == old(disk))
+//@   ensures [C08 endpoint.deleteVersion.non200-constant-body] respStatus != 200 ==> constBody(respBody)
+//@   ensures [C08 endpoint.deleteVersion.one-operation] fnCalls == old(fnCalls) || fnCalls == old(fnCalls) + 1
+//@   at call serveJSON: assert [C08 endpoint.deleteVersion.closure-pre] arg_s == s && arg_r == r && arg_s != nil && dbInv(arg_s.db) && fnName(arg_fn) == "(*server.Server).deleteVersion$1"
+//@ func (*Server).deleteSecret(s, w, r)
+//@   requires s != nil && dbInv(s.db) && r != nil && r.URL != nil && s.whois != nil && w != nil && respStatus == 0 && respBody == ""
+//@   ensures [C08 endpoint.deleteSecret.gate] !hdrOK(r) ==> (respStatus >= 400 && respStatus < 500 && fnCalls == old(fnCalls) && whoisCalls == old(whoisCalls) && auditLog == old(auditLog) && disk == old(disk))
+//@   ensures [C08 endpoint.deleteSecret.unidentified] (whoisCalls != old(whoisCalls) && lastWhoErr != nil) ==> (fnCalls == old(fnCalls) && respStatus >= 400 && auditLog == old(auditLog) && disk == old(disk))
+//@   ensures [C08 endpoint.deleteSecret.non200-constant-body] respStatus != 200 ==> constBody(respBody)
+//@   ensures [C08 endpoint.deleteSecret.one-operation] fnCalls == old(fnCalls) || fnCalls == old(fnCalls) + 1
+//@   at call serveJSON: assert [C08 endpoint.deleteSecret.closure-pre] arg_s == s && arg_r == r && arg_s != nil && dbInv(arg_s.db) && fnName(arg_fn) == "(*server.Server).deleteSecret$1"
+
 // ---- backups ------------------------------------------------------------------------------------
 //@ func (*Server).doBackup(s, ctx) (err)
 //@   requires s != nil && dbInv(s.db) && s.backupClient != nil && ctx != nil
